@@ -137,6 +137,11 @@ RAW = [
      "REF:(h(e.a), 100)"),
     ("W = 5\ndef g(v): return v + W\ndef build(ds):\n    def inner(W):\n        return ds.Select(\n            lambda e: e.jets.Select(lambda j: g(j.pt) + W)\n        )\n    return inner(100)\n",
      "REF:e.jets.Select(lambda j: g(j.pt) + 100)"),
+    # a comprehension WITH a filter inside a helper; the call site's variable is spelled like the comprehension's target
+    ("def h(pt, near): return [j.pt - pt for j in near if j.pt > 1]\n", "e.jets.Select(lambda j: h(j.pt, e.jets))"),
+    ("def h(pt, near): return [j.pt - pt for j in near if j.pt > pt if j.eta > 0]\n", "e.jets.Select(lambda j: h(j.pt, e.jets))"),
+    ("def h(j, near): return [j.pt - k.pt for k in near if k.pt > j.pt]\n", "e.jets.Select(lambda k: h(k, e.jets))"),
+    ("def h(pt, near): return (t.q - pt for t in near if t.q > pt)\n", "e.jets.Select(lambda t: list(h(t.pt, t.tr)))"),
     # a BOUND METHOD captured under a plain name: its function has one parameter more than the call has arguments
     ("class K:\n    off = 5\n    def m(self, x): return x + 1\nh = K().m\n", "h(e.a)"),
     ("class K:\n    def __init__(self): self.off = 5\n    def m(self, x): return x + self.off\nh = K().m\n", "h(e.a)"),
@@ -151,7 +156,7 @@ _N = [0]
 def _hmodel():
     from . import c04
 
-    return c04.HModel(derives=("derive-helper", "derive-helper-closure"))
+    return c04.HModel(derives=("derive-helper", "derive-helper-closure"), broken=True)
 
 
 class C05(Check):
